@@ -194,31 +194,33 @@ def run(ck, F):
     # ---------------------------------------------------------------- handler
     nh = F.need_fn('ipr::impl::Block::new_handler(const ipr::Name &, const ipr::Type &)')
     outs = [o for o in S.run(nh['id']) if o[1] == 'return']
-    if len(outs) != 1:
-        raise AnalysisBroken('Block::new_handler: unexpected paths')
-    st, _k, v = outs[0]
-    h = v[1]
-    ho = st.heap[h[1]]
-    eh = ho.fields.get(F.role_field('ipr::impl::Handler', lambda fl: 'eh_region' in fl['t'], 'region of the exception parameter'))
-    blk = ho.fields.get(F.role_field('ipr::impl::Handler', lambda fl: 'handler_block' in fl['t'], 'body of the handler'))
-    good_eh = good_body = single = False
-    if eh and eh[0] == 'obj' and blk and blk[0] == 'obj':
-        eho = st.heap[eh[1]]
-        par = eho.fields.get('parent')
-        txt = contracts.render(par, st, {})
-        # enclosing() of the guarded block: *this.lexical_region.parent.ptr
-        good_eh = isinstance(par, tuple) and par[0] == 'deref' and par[1] == ('fld', ('fld', ('fld', ('sym', 'this'), 'lexical_region'), 'parent'), F.role_field('ipr::Optional<ipr::Region>', lambda fl: True, 'held pointer'))
-        lr = st.heap[blk[1]].fields.get('lexical_region')
-        bpar = opt_target(st, st.heap[lr[1]].fields.get('parent')) if lr and lr[0] == 'obj' else None
-        good_body = bpar == eh
-        single = eho.cls == 'ipr::impl::eh_region' and any('singleton_obj' in b for b in [eho.cls] + F.ancestors(eho.cls))
-        # the parameter's region
-        ehp = [oid for oid, o in st.heap.items() if o.cls == 'ipr::impl::EH_parameter']
-    ck.check(R_handler, 'exception region', good_eh, 'the exception-parameter region of a new handler is not enclosed by the region '
-             'enclosing the guarded block', loc=nh['loc'], fn=nh['id'])
-    ck.check(R_handler, 'body region', good_body, 'the handler body\'s region is not enclosed by the exception-parameter region',
-             loc=nh['loc'], fn=nh['id'])
-    ck.check(R_handler, 'singleton', single, 'the exception-parameter region is not a singleton region', loc=nh['loc'], fn=nh['id'])
+    if not outs:
+        raise AnalysisBroken('Block::new_handler: no returning path')
+    for pi, (st, _k, v) in enumerate(outs):
+        # one instance per path: a handler built differently for some exception types is judged on each of them
+        tag = '' if len(outs) == 1 else f' [path {pi}: {contracts.render_conds(st.conds, st, {})[:90]}]'
+        h = v[1]
+        ho = st.heap[h[1]]
+        eh = ho.fields.get(F.role_field('ipr::impl::Handler', lambda fl: 'eh_region' in fl['t'], 'region of the exception parameter'))
+        blk = ho.fields.get(F.role_field('ipr::impl::Handler', lambda fl: 'handler_block' in fl['t'], 'body of the handler'))
+        good_eh = good_body = single = False
+        if eh and eh[0] == 'obj' and blk and blk[0] == 'obj':
+            eho = st.heap[eh[1]]
+            par = eho.fields.get('parent')
+            txt = contracts.render(par, st, {})
+            # enclosing() of the guarded block: *this.lexical_region.parent.ptr
+            good_eh = isinstance(par, tuple) and par[0] == 'deref' and par[1] == ('fld', ('fld', ('fld', ('sym', 'this'), 'lexical_region'), 'parent'), F.role_field('ipr::Optional<ipr::Region>', lambda fl: True, 'held pointer'))
+            lr = st.heap[blk[1]].fields.get('lexical_region')
+            bpar = opt_target(st, st.heap[lr[1]].fields.get('parent')) if lr and lr[0] == 'obj' else None
+            good_body = bpar == eh
+            single = eho.cls == 'ipr::impl::eh_region' and any('singleton_obj' in b for b in [eho.cls] + F.ancestors(eho.cls))
+            # the parameter's region
+            ehp = [oid for oid, o in st.heap.items() if o.cls == 'ipr::impl::EH_parameter']
+        ck.check(R_handler, 'exception region' + tag, good_eh, 'the exception-parameter region of a new handler is not enclosed by the region '
+                 'enclosing the guarded block', loc=nh['loc'], fn=nh['id'])
+        ck.check(R_handler, 'body region' + tag, good_body, 'the handler body\'s region is not enclosed by the exception-parameter region',
+                 loc=nh['loc'], fn=nh['id'])
+        ck.check(R_handler, 'singleton' + tag, single, 'the exception-parameter region is not a singleton region', loc=nh['loc'], fn=nh['id'])
 
     # ---------------------------------------------------------------- positions / home / level
     cases = [
@@ -230,31 +232,32 @@ def run(ck, F):
     for name, fid, want in cases:
         f = F.need_fn(fid)
         outs = [o for o in S.run(fid) if o[1] == 'return']
-        if len(outs) != 1:
-            raise AnalysisBroken(f'{fid}: unexpected paths')
-        st, _k, v = outs[0]
-        root = v[1] if v[0] == 'addr' else v
-        emp = [e for e in st.effects if e[0] == 'emplace']
-        acc = contracts.observe(S, F, st, root, {root[1]: 'R'}, accessor_filter=lambda n: n in ('position', 'home_region', 'level'))
-        # position: a size observation of the container the element went into, taken before the growth, no offset
-        pos_fo = [fo for fo in F.final_overrider_by_name(st.heap[root[1]].cls, 'position')]
-        pv = S.run(pos_fo[0], this=root, args=[], state=st.fork())[0][2] if pos_fo else None
-        while isinstance(pv, tuple) and pv and pv[0] == 'castto':
-            pv = pv[2]
-        cont = emp[0][2] if len(emp) == 1 else None
-        ok_pos = False
-        if isinstance(pv, tuple) and pv[0] in ('call', 'vcall') and cont is not None:
-            nm = contracts.fn_simple(pv[1])
-            if nm == 'size':
-                ok_pos = pv[2] == cont or contracts.render(pv[2], st, {}) in contracts.render(cont, st, {}) or contracts.render(cont, st, {}).startswith(contracts.render(pv[2], st, {}))
-            elif nm == 'distance':
-                ok_pos = all(isinstance(a, tuple) and a[0] == 'call' and a[2] == cont for a in pv[3]) and \
-                    [contracts.fn_simple(a[1]) for a in pv[3]] == ['begin', 'end']
-        ck.check(R_pos, name + '/position', ok_pos,
-                 f'{fid}: position() is `{acc.get("position")}`; expected the size of the member sequence before the append',
-                 loc=f['loc'], fn=fid)
-        for k2, w in want.items():
-            ck.check(R_pos, name + '/' + k2, acc.get(k2) == w, f'{fid}: {k2}() is `{acc.get(k2)}`, expected `{w}`', loc=f['loc'], fn=fid)
+        if not outs:
+            raise AnalysisBroken(f'{fid}: no returning path')
+        for pi, (st, _k, v) in enumerate(outs):
+            pname = name if len(outs) == 1 else f'{name} [path {pi}: {contracts.render_conds(st.conds, st, {})[:90]}]'
+            root = v[1] if v[0] == 'addr' else v
+            emp = [e for e in st.effects if e[0] == 'emplace']
+            acc = contracts.observe(S, F, st, root, {root[1]: 'R'}, accessor_filter=lambda n: n in ('position', 'home_region', 'level'))
+            # position: a size observation of the container the element went into, taken before the growth, no offset
+            pos_fo = [fo for fo in F.final_overrider_by_name(st.heap[root[1]].cls, 'position')]
+            pv = S.run(pos_fo[0], this=root, args=[], state=st.fork())[0][2] if pos_fo else None
+            while isinstance(pv, tuple) and pv and pv[0] == 'castto':
+                pv = pv[2]
+            cont = emp[0][2] if len(emp) == 1 else None
+            ok_pos = False
+            if isinstance(pv, tuple) and pv[0] in ('call', 'vcall') and cont is not None:
+                nm = contracts.fn_simple(pv[1])
+                if nm == 'size':
+                    ok_pos = pv[2] == cont or contracts.render(pv[2], st, {}) in contracts.render(cont, st, {}) or contracts.render(cont, st, {}).startswith(contracts.render(pv[2], st, {}))
+                elif nm == 'distance':
+                    ok_pos = all(isinstance(a, tuple) and a[0] == 'call' and a[2] == cont for a in pv[3]) and \
+                        [contracts.fn_simple(a[1]) for a in pv[3]] == ['begin', 'end']
+            ck.check(R_pos, pname + '/position', ok_pos,
+                     f'{fid}: position() is `{acc.get("position")}`; expected the size of the member sequence before the append',
+                     loc=f['loc'], fn=fid)
+            for k2, w in want.items():
+                ck.check(R_pos, pname + '/' + k2, acc.get(k2) == w, f'{fid}: {k2}() is `{acc.get(k2)}`, expected `{w}`', loc=f['loc'], fn=fid)
 
     # ---------------------------------------------------------------- units
     mk = F.need_fn('ipr::impl::Module::make_unit()')
